@@ -17,6 +17,8 @@
 #include <cstdlib>
 #include <cstdint>
 #include <sys/resource.h>
+#include <sys/wait.h>
+#include <unistd.h>
 #include <gmpxx.h>
 #define private public
 #define protected public
@@ -570,13 +572,28 @@ template <class T> void run_one(long idx, uint64_t seed) {
   objs << "\n";
   objs.flush();
   std::cout << "B " << idx << ' ' << cls << std::endl;      // begin marker (crash localisation)
-  for (size_t k = 0; k < pos.size(); ++k) {
-    for (int kind = 0; kind < 2; ++kind) {
-      std::string m = kind == 0 ? join(tk, pos[k], -1) : join(tk, -1, pos[k]);
-      T z;
-      bool acc = load(z, m);
-      std::cout << "M " << idx << ' ' << pos[k] << ' ' << (kind == 0 ? 'D' : 'R') << ' ' << (acc ? 1 : 0) << "\n";
+  // the mutated loads run in a child process: a loader that crashes on a malformed stream must not
+  // take the rest of the run with it; the child announces each load before doing it
+  std::cout.flush();
+  pid_t pid = fork();
+  if (pid == 0) {
+    for (size_t k = 0; k < pos.size(); ++k) {
+      for (int kind = 0; kind < 2; ++kind) {
+        std::string m = kind == 0 ? join(tk, pos[k], -1) : join(tk, -1, pos[k]);
+        std::cout << "MB " << idx << ' ' << pos[k] << ' ' << (kind == 0 ? 'D' : 'R') << std::endl;
+        T z;
+        bool acc = load(z, m);
+        std::cout << "M " << idx << ' ' << pos[k] << ' ' << (kind == 0 ? 'D' : 'R') << ' ' << (acc ? 1 : 0) << std::endl;
+      }
     }
+    std::cout.flush();
+    _exit(0);
+  }
+  else if (pid > 0) {
+    int st = 0;
+    waitpid(pid, &st, 0);
+    if (!(WIFEXITED(st) && WEXITSTATUS(st) == 0))
+      std::cout << "CRASH " << idx << ' ' << cls << " status=" << st << std::endl;
   }
   // (iv) follow-up battery on the original and on the loaded object
   bool bat = false, ans = false;
